@@ -833,6 +833,10 @@ public:
       }
     }
 
+    // A timed-out drain() re-enables _accepting so that drain can be retried; a service
+    // that is being stopped must refuse new timers (they would be accepted and never run).
+    _accepting.store(false, std::memory_order_release);
+
     // Now transition to Stopped
     bool expected = true;
     if (_running.compare_exchange_strong(expected, false, std::memory_order_acq_rel))
